@@ -175,11 +175,11 @@ Section Merge.
     { induction l as [|y t IH]; intros acc; cbn [fold_left]; [cbn; tauto|]. rewrite IH, ins_In. cbn [In]. intuition congruence. }
     rewrite G. cbn. tauto.
   Qed.
-  Lemma dedupe_sub l : forall prev x, In x (dedupe prev l) -> In x l.
+  Lemma dedupe_sub l : forall seen x, In x (dedupe seen l) -> In x l.
   Proof.
-    induction l as [|v t IH]; intros prev x H; cbn [dedupe] in H; [contradiction|].
+    induction l as [|v t IH]; intros seen x H; cbn [dedupe] in H; [contradiction|].
     destruct (_ && _); [right; eapply IH; eauto|].
-    destruct (match prev with Some p => variant_eqb (fst v) p | None => false end); [right; eapply IH; eauto|].
+    destruct (existsb (variant_eqb (fst v)) seen); [right; eapply IH; eauto|].
     destruct H as [<-|H]; [left; reflexivity|right; eapply IH; eauto].
   Qed.
 
@@ -209,40 +209,41 @@ Proof.
   apply Z.eqb_eq in H1, H2. split; [apply kind_rank_inj; exact H1|exact H2].
 Qed.
 
-Lemma dedupe_complete l : forall prev, Forall wf_tr l -> aa_uniq l ->
-  (forall pv, prev = Some pv -> v_kind pv = KAA -> Forall (fun y => variant_eqb (fst y) pv = false) l) ->
+Lemma dedupe_complete l : forall seen, Forall wf_tr l -> aa_uniq l ->
+  (forall pv, In pv seen -> v_kind pv = KAA -> Forall (fun y => variant_eqb (fst y) pv = false) l) ->
   forall v m p, In (v, m) l -> In p m ->
-  In p (flat_map snd (dedupe prev l)) \/ (exists pv, prev = Some pv /\ variant_eqb v pv = true /\ v_kind v = KNuc).
+  In p (flat_map snd (dedupe seen l)) \/ (exists pv, In pv seen /\ variant_eqb v pv = true /\ v_kind v = KNuc).
 Proof.
-  induction l as [|x t IH]; intros prev Hwf Hu Hfresh v m p Hin Hp; [contradiction|].
+  induction l as [|x t IH]; intros seen Hwf Hu Hfresh v m p Hin Hp; [contradiction|].
   inversion Hwf as [|? ? Hx Hwt]; subst. destruct Hu as [Hux Hut]. cbn [dedupe].
-  assert (Hfresh_t : forall pv, prev = Some pv -> v_kind pv = KAA -> Forall (fun y => variant_eqb (fst y) pv = false) t).
+  assert (Hfresh_t : forall pv, In pv seen -> v_kind pv = KAA -> Forall (fun y => variant_eqb (fst y) pv = false) t).
   { intros pv E K. specialize (Hfresh pv E K). inversion Hfresh; assumption. }
   destruct ((match v_kind (fst x) with KDel => true | _ => false end) && (v_pos (fst x) =? 0)%Z) eqn:Edel.
   - (* a start-abutting deletion: mentions nothing *)
-    destruct Hin as [Hin|Hin]; [|apply (IH prev Hwt Hut Hfresh_t v m p Hin Hp)].
+    destruct Hin as [Hin|Hin]; [|apply (IH seen Hwt Hut Hfresh_t v m p Hin Hp)].
     subst x. cbn [fst snd] in *. unfold wf_tr in Hx. cbn [fst snd] in Hx. destruct (v_kind v); try discriminate. subst m. contradiction.
-  - destruct (match prev with Some pv => variant_eqb (fst x) pv | None => false end) eqn:Edup.
-    + (* dropped as a duplicate of the last kept record *)
-      destruct Hin as [Hin|Hin]; [|apply (IH prev Hwt Hut Hfresh_t v m p Hin Hp)].
-      subst x. cbn [fst snd] in *. destruct prev as [pv|]; [|discriminate].
+  - destruct (existsb (variant_eqb (fst x)) seen) eqn:Edup.
+    + (* dropped as a repetition of a record kept earlier *)
+      destruct Hin as [Hin|Hin]; [|apply (IH seen Hwt Hut Hfresh_t v m p Hin Hp)].
+      subst x. cbn [fst snd] in *. apply existsb_exists in Edup as (pv & Hpv & Edup).
       destruct (variant_eqb_kind _ _ Edup) as [Hk _]. unfold wf_tr in Hx. cbn [fst snd] in Hx.
       destruct (v_kind v) eqn:Kv.
-      * exfalso. specialize (Hfresh pv eq_refl (eq_sym Hk)). inversion Hfresh as [|? ? Hf _]; subst. cbn [fst] in Hf. congruence.
+      * exfalso. specialize (Hfresh pv Hpv (eq_sym Hk)). inversion Hfresh as [|? ? Hf _]; subst. cbn [fst] in Hf. congruence.
       * subst m. contradiction.
       * subst m. contradiction.
       * right. exists pv. auto.
     + (* kept *)
       cbn [flat_map]. destruct Hin as [Hin|Hin].
       * subst x. left. apply in_or_app. left. exact Hp.
-      * assert (Hf' : forall pv, Some (fst x) = Some pv -> v_kind pv = KAA -> Forall (fun y => variant_eqb (fst y) pv = false) t).
-        { intros pv [= <-] K. apply Hux. exact K. }
-        destruct (IH (Some (fst x)) Hwt Hut Hf' v m p Hin Hp) as [H|(pv & [= <-] & He & Kv)].
+      * assert (Hf' : forall pv, In pv (fst x :: seen) -> v_kind pv = KAA -> Forall (fun y => variant_eqb (fst y) pv = false) t).
+        { intros pv [<-|Hpv] K; [apply Hux; exact K|apply Hfresh_t; assumption]. }
+        destruct (IH (fst x :: seen) Hwt Hut Hf' v m p Hin Hp) as [H|(pv & [<-|Hpv] & He & Kv)].
         -- left. apply in_or_app. right. exact H.
         -- left. apply in_or_app. left. destruct (variant_eqb_kind _ _ He) as [Hk Hpos].
            assert (Hwv : wf_tr (v, m)) by (rewrite Forall_forall in Hwt; apply Hwt; exact Hin).
            unfold wf_tr in Hwv, Hx. cbn [fst snd] in Hwv. rewrite Kv in Hwv. rewrite <- Hk, Kv in Hx.
            rewrite Hx. rewrite Hwv in Hp. destruct Hp as [<-|[]]. left. unfold vp. rewrite Hpos. reflexivity.
+        -- right. exists pv. auto.
 Qed.
 
 (* what the codon loop emits is well-formed: nuc: records mention their own position *)
@@ -309,7 +310,6 @@ Section Complete.
     set (L := map (fun i => (mk_indel i, [])) (Indels.get_indels (cols_of_rows ref que)) ++ map trace_nuc (get_nucs ref que r2m inter) ++ aas) in *.
     assert (Hwf : Forall wf_tr (ssort (variant * list nat) t_lt L)).
     { apply Forall_forall. intros x Hx'. apply (proj1 (ssort_In t_lt L x)) in Hx'. pose proof (merged_wf aas Ha) as W. rewrite Forall_forall in W. apply W. exact Hx'. }
-    destruct (dedupe_complete _ None Hwf Hu ltac:(intros pv E; discriminate) v m p (proj2 (ssort_In t_lt L (v, m)) Hx) Hp) as [H|(pv & E & _)];
-      [exact H|discriminate].
+    destruct (dedupe_complete _ [] Hwf Hu ltac:(intros pv []) v m p (proj2 (ssort_In t_lt L (v, m)) Hx) Hp) as [H|(pv & [] & _)]; exact H.
   Qed.
 End Complete.
